@@ -50,12 +50,19 @@ def run_property(prop, tier, seed, replay_file=None):
         return 1 if new else 0
 
     # ---- non-vacuity: the pinned variant of a litmus must violate the invariant in the model
-    for name, drop_fixes in plan.get("vacuity", []):
+    for ent in plan.get("vacuity", []):
+        name, drop_fixes = ent[0], ent[1]
+        mut = ent[2] if len(ent) > 2 else None
         inst, emit, opts = INSTANCES[name]
+        if mut:
+            inst = dict(inst, mut=mut)
         fx = [f for f in fixes if f not in drop_fixes]
-        r = E.run_tlc(name + "_pinned", inst, fx, [prop], None, workers=4, timeout=120)
-        vacuity.append(dict(instance=name, without=drop_fixes, violated=r["violated"], states=r["distinct"]))
-        E.log("vacuity %s without %s: %s" % (name, drop_fixes, "violated (good)" if r["violated"] else "NOT violated"))
+        r = E.run_tlc(name + "_pinned", inst, fx, [prop], None, workers=4, timeout=180)
+        vacuity.append(dict(instance=name, without=drop_fixes, mutant=mut, violated=r["violated"], states=r["distinct"]))
+        E.log("vacuity %s %s: %s" % (name, ("with the model mutant " + mut) if mut else ("without %s" % drop_fixes), "violated (good)" if r["violated"] else "NOT violated"))
+        if not r["violated"]:
+            # the standing non-vacuity demonstration failed: the check cannot be trusted
+            raise E.ToolError("vacuity variant %s of %s is not violated in the model" % (mut or drop_fixes, name))
 
     for entry in insts:
         name = entry if isinstance(entry, str) else entry[0]
@@ -80,12 +87,15 @@ def run_property(prop, tier, seed, replay_file=None):
             trace = E.stress(progs, c, prop + "-stress-" + iname, seed, threads=opts.get("threads", 4), rounds=rounds, interval_us=opts.get("interval_us", 150))
             viols, consumed = E.validate(trace, prop + "-stress-" + iname, parts=8)
             new, listed = E.classify(viols, prop, known)
+            idle = [json.loads(l) for l in open(trace) if '"ev":"idle"' in l]
             tot["runs"] += consumed
             per_instance.append(dict(instance=name, states=0, transitions=0, depth=0, emitted=len(progs), replayed=consumed, validated=consumed,
                                      steering_misses=0, tlc_wall_s=0, model_violates=False, timed_out=False,
                                      other_property_violations=len([v for v in viols if v["p"] != prop]), shuffled=0,
-                                     free_running=dict(threads=opts.get("threads", 4), rounds=rounds, interval_us=opts.get("interval_us", 150))))
-            E.log("%s: %d free-running rounds (%d threads, real background collector) validated" % (name, consumed, opts.get("threads", 4)))
+                                     free_running=dict(threads=opts.get("threads", 4), rounds=rounds, interval_us=opts.get("interval_us", 150),
+                                                       rounds_without_flush=len(idle), max_delivery_delay_us=max([x.get("delay_us", 0) for x in idle] or [0]))))
+            E.log("%s: %d free-running rounds (%d threads, real background collector) validated; %d of them waited for delivery without flush() (largest delay %d us)"
+                  % (name, consumed, opts.get("threads", 4), len(idle), max([x.get("delay_us", 0) for x in idle] or [0])))
             for v in new:
                 vdir = os.path.join(E.OUT, prop)
                 os.makedirs(vdir, exist_ok=True)
